@@ -4,5 +4,6 @@ CONSTANTS
   AsFound_LabourDemandLate = FALSE
   AsFound_LiteralSupGood = FALSE
   AsFound_DividendsPerPayer = FALSE
+  AsFound_FirstRecipient = FALSE
 POSTCONDITION AllConsumed
 CHECK_DEADLOCK FALSE
